@@ -106,7 +106,7 @@ def work_uint(bins, strings):
         rep = pr.call(dict(op="sanitize", preset="uint", strings=strings))
         for s, out in zip(strings, rep["results"]):
             exp = ref.uint(s, kz)
-            if out != exp:
+            if out not in ref.uint_admissible(s, kz):
                 if isinstance(out, dict) and "panic" in out:
                     bad.append(("panic@" + _loc(out.get("at", "?")), "panic %s" % out["panic"], s, out))
                 else:
@@ -219,6 +219,7 @@ def run(ctx):
     rng = ctx.sub_rng("unicode")
     nrand = 4000 if quick else 60000
     rand = [gen.random_unicode(rng, 14) for _ in range(nrand // 2)] + [gen.hostile_text(rng) for _ in range(nrand // 2)]
+    rng.shuffle(rand)        # the slices taken below (rand[:N]) must meet both kinds
     for cfg in allcfg:
         sub = rng.sample(rand, 400 if quick else 4000)
         jobs.append((ctx.bins, cfg, sub))
@@ -288,8 +289,8 @@ def replay(ctx, doc):
         print(r["bad"][:3])
     elif case["kind"] == "uint":
         out = pr.call(dict(op="sanitize", preset="uint", strings=[case["input"]]))["results"][0]
-        exp = ref.uint(case["input"])
-        v = None if out == exp else ("uint-mismatch", exp)
+        exp = sorted(ref.uint_admissible(case["input"]))
+        v = None if out in exp else ("uint-mismatch", exp)
         print("uint(%r) -> %r expected %r" % (case["input"], out, exp))
     else:
         out = pr.call(dict(op="sanitize", preset=case["preset"], strings=[case["input"]]))["results"][0]
